@@ -44,7 +44,7 @@ def run_demo(seed_dir, repo, st):
     ok = True; tail = ""
     for c in cmds:
         rc, out = sh(c + " 2>&1 | tail -25", cwd=repo, env=env, timeout=1800)
-        good = ("test result: ok" in out) and ("FAILED" not in out) and ("error" not in out.split("test result")[0][-2000:] if "test result" in out else False)
+        good = ("test result: ok" in out) and ("FAILED" not in out) and ("error[" not in out) and ("could not compile" not in out)
         if not good:
             ok = False; tail = out[-600:]
     for f in installed:
